@@ -218,6 +218,17 @@ pub fn exec(rest: &str, out: &mut Out) -> (String, bool) {
         let t2 = v.print_with(o.clone()).to_string();
         out.oracle(t2 == text, "preset method = print_with(preset)", || cps(&t2));
     }
+    // content only: the same value built through another route (heap-backed buffers) prints alike
+    {
+        let vr = crate::ord::rebuilt(&v);
+        let tr = match a[0] {
+            "pretty" => vr.pretty_print().to_string(),
+            "compact" => vr.compact_print().to_string(),
+            "inline" => vr.inline_print().to_string(),
+            _ => vr.print_with(o.clone()).to_string(),
+        };
+        out.oracle(tr == text, "printing depends on the content only (value rebuilt with heap-backed buffers prints the same)", || cps(&tr));
+    }
     // C13: documented layout (independent reference printer)
     let mut want = String::new();
     ref_print(&o, 0, &v, &mut want);
@@ -399,4 +410,43 @@ pub fn gen(out: &mut Out, thorough: bool, focus: &str) {
         }
     }
     out.exhaustive.push("option grid on a fixed nested value: each numeric field 0..3 x 14 limit variants; width thresholds 0..44 x 5 indent units".into());
+    // deep expanded chains x indent units, and large padding values: indentation and padding are
+    // written by loops/chunks whose size boundaries (16, 32, 64, …) a shallow value never reaches
+    {
+        let depths: &[usize] = if thorough { &[1, 2, 3, 8, 15, 16, 17, 18, 31, 32, 33, 34, 63, 64, 65, 66, 100, 127, 128, 129, 257] } else { &[1, 2, 3, 16, 17, 18, 32, 33, 34, 64, 65, 66, 129] };
+        let inds = ["s1", "s2", "s3", "s4", "s7", "s16", "s31", "s32", "s33", "s63", "s64", "s65", "s200", "t1", "t2", "t3", "t15", "t16", "t17", "t33", "t64", "t65"];
+        let mut n = 0u64;
+        for &d in depths {
+            for ind in inds {
+                let unit: usize = ind[1..].parse().unwrap_or(1);
+                if d * unit > 9000 { continue; }
+                // alternate arrays and objects; two members per level so that `pretty` expands as well
+                let mut v = String::from("#31;");
+                for i in 0..d { v = if i % 2 == 0 { format!("[{}t]", v) } else { format!("{{k61;{}k62;n}}", v) }; }
+                for lim in ["A", "-"] {
+                    let mut f = base.clone();
+                    f[0] = ind.to_string();
+                    f[6] = lim.to_string();
+                    f[14] = lim.to_string();
+                    l(format!("print {} {}", f.join(","), v), out);
+                    n += 1;
+                }
+                if d <= 66 { l(format!("print pretty {}", v), out); n += 1; }
+            }
+        }
+        for field in [1usize, 2, 3, 4, 5, 7, 8, 9, 10, 11, 12, 13] {
+            for val in [15, 16, 17, 31, 32, 33, 63, 64, 65, 127, 128, 129, 200] {
+                for lim in ["-", "A"] {
+                    let mut f = base.clone();
+                    f[field] = val.to_string();
+                    f[6] = lim.to_string();
+                    f[14] = lim.to_string();
+                    l(format!("print {} {}", f.join(","), fixed), out);
+                    n += 1;
+                }
+            }
+        }
+        out.count_n("stream_deep_indent_and_padding", n);
+        out.exhaustive.push(format!("alternating array/object chains of depth {:?} x {} indent units (spaces and tabs up to 200 / 65 per level) expanded and not, plus each padding field at 15..17, 31..33, 63..65, 127..129, 200", depths, inds.len()));
+    }
 }
